@@ -3,6 +3,9 @@
 Decided clauses:
   A1  position setter: every child gets  new_parent_pos + (child_pos - old_parent_pos)   (E2-FRAME: Pt[G] + (Pt[G] - Pt[G]))
   A2  orientation setter: every child is rotated by  new o old^-1 : Rot[G->G]  about anchor = the collection's own position, from path index 0
+  M1  (E3-ORIGIN) in the pose setters / apply_move / apply_rotation the only arrays written in place are the pose paths of the object being
+      updated: no in-place write on a child's path or on a caller-owned value
+  V1  the validators feeding pose updates return independent copies (an anchor that aliases a position would be corrupted by `pos -= anchor`)
   A3  recursion coverage: move(), _rotate() and both setters iterate over *all* children and apply the same operation with the same
       arguments (displacement/rotation, anchor, start); _rotate forwards the top-level parent's position path as implicit anchor to
       every descendant (parent_path is passed on unchanged when it is given); reset_path goes through the setters
@@ -123,9 +126,12 @@ def a3(repo, res):
 
 
 def run(repo, res, tier):
-    res.rules = ["A1 position setter algebra", "A2 orientation setter algebra", "A3 recursion coverage / argument forwarding"]
+    res.rules = ["A1 position setter algebra", "A2 orientation setter algebra", "A3 recursion coverage / argument forwarding", "M1 in-place pose writes only on the updated object", "V1 pose validators return copies"]
     frame_rules.c10_algebra(repo, res)
     a3(repo, res)
+    import origin_rules
+    origin_rules.pose_mutations(repo, res, rule="M1")
+    origin_rules.validators_fresh(repo, res, rule="V1", only=("check_format_input_anchor", "check_format_input_vector", "check_format_input_orientation", "make_float_array"))
     res.assumptions += ["declared types: X._position : Pt[G], X._orientation : Rot[X->G]; pad_slice_path returns its second argument re-sliced"]
     return {}
 
